@@ -296,6 +296,76 @@ theorem C05_early_filter_duplicates_xmlns :
     tokName t = some ⟨nsClient, "message"⟩ ∧ ∃ a ∈ startAttrs t, a.name.loc = "xmlns" := by
   decide
 
+/-! ### token writer handles used after `Close` (round 6) -/
+
+open Handles in
+/-- **a closed handle is inert**: every operation on it leaves the wire, the encoder's buffer,
+the holder of the output lock and the set of closed handles exactly as they were;
+`EncodeToken` reports `io.EOF`, `Flush` and a second `Close` have nothing to do -/
+theorem C05_closed_handle_inert (s : Sess) (h : Nat) (op : HOp) (hc : s.closed.contains h = true) :
+    (step true s h op).1 = s ∧ ∀ t, op = .enc t → (step true s h op).2 = .eof := by
+  have hm : h ∈ s.closed := by simpa using hc
+  cases op <;> simp [step, hm]
+
+open Handles in
+theorem Handles.closed_mono (s : Sess) (h : Nat) (op : HOp) (x : Nat) (hx : s.closed.contains x = true) :
+    (step true s h op).1.closed.contains x = true := by
+  unfold step
+  split
+  · cases op <;> simpa using hx
+  · cases op <;> simp_all
+
+open Handles in
+/-- in any interleaving of the operations of one live handle `b` with operations on handles that
+are closed (any number of stale handles, any operations, any positions — also between the
+tokens of `b`'s element), the session ends exactly as if only `b`'s operations had happened -/
+theorem C05_closed_handles_inert_program : ∀ (prog : List (Nat × HOp)) (s : Sess) (b : Nat),
+    (∀ x ∈ prog, x.1 = b ∨ s.closed.contains x.1 = true) →
+    (run true s prog).1 = (run true s (prog.filter fun x => decide (x.1 = b))).1 := by
+  intro prog
+  induction prog with
+  | nil => intro s b _; rfl
+  | cons x xs ih =>
+    intro s b h
+    by_cases hb : x.1 = b
+    · have hf : (x :: xs).filter (fun y => decide (y.1 = b)) = x :: xs.filter (fun y => decide (y.1 = b)) := by
+        simp [hb]
+      rw [hf]
+      simp only [run]
+      apply ih
+      intro y hy
+      rcases h y (List.mem_cons_of_mem _ hy) with h1 | h1
+      · exact Or.inl h1
+      · exact Or.inr (Handles.closed_mono s x.1 x.2 y.1 h1)
+    · have hc : s.closed.contains x.1 = true := by
+        rcases h x (List.mem_cons_self ..) with h1 | h1
+        · exact absurd h1 hb
+        · exact h1
+      have hf : (x :: xs).filter (fun y => decide (y.1 = b)) = xs.filter (fun y => decide (y.1 = b)) := by
+        simp [hb]
+      rw [hf]
+      simp only [run]
+      rw [(C05_closed_handle_inert s x.1 x.2 hc).1]
+      exact ih s b fun y hy => h y (List.mem_cons_of_mem _ hy)
+
+open Handles in
+/-- the statement needs the handle to remember that it was closed: without that a token written
+through the stale handle `0` lands inside the element handle `1` is writing, and a second
+`Close` of handle `0` releases the lock handle `1` holds -/
+theorem C05_closed_handle_not_inert_without_guard :
+    let a : Tok := .start ⟨"", "a"⟩ []
+    let b : Tok := .start ⟨"", "b"⟩ []
+    let x : Tok := .chars "x"
+    let s := acquire (run false (acquire init 0) [(0, .enc a), (0, .close)]).1 1
+    (run false s [(1, .enc b), (0, .enc x), (1, .enc (.stop ⟨"", "b"⟩)), (1, .close)]).1.wire
+        = [a, b, x, .stop ⟨"", "b"⟩] ∧
+    (run false s [(1, .enc b), (0, .close)]).1.holder = none ∧
+    (run true s [(1, .enc b), (0, .enc x), (0, .close), (1, .enc (.stop ⟨"", "b"⟩)), (1, .close)]).1.wire
+        = [a, b, .stop ⟨"", "b"⟩] ∧
+    (run true s [(1, .enc b), (0, .close)]).1.holder = some 1 := by
+  decide
+
+
 /-! ### The entry points hand exactly one complete element to the encoder -/
 
 /-- `Send`: the first element of the reader, whole, and nothing of what follows it -/
